@@ -17,6 +17,31 @@ DAY_NAMES = ["MONDAY", "TUESDAY", "WEDNESDAY", "THURSDAY", "FRIDAY", "SATURDAY",
 DAY_VALUES = ["Monday", "Tuesday", "Wednesday", "Thursday", "Friday", "Saturday", "Sunday"]
 
 
+def table_equals_formula(prog: Program, v: T.Term, day: T.Term) -> bool:
+    """A single day encoded through a table keyed by the Days members (built once from the enum) instead of the
+    formula: equal iff the table has exactly the seven members and each entry is '{:02x}' of that member's bit."""
+    inner = v
+    if T.is_seq(v) and len(v[2]) == 1 and v[2][0][0] == "txt":
+        inner = v[2][0][1]
+    if not (isinstance(inner, tuple) and inner and inner[0] == "lookup" and inner[2] == day):
+        return False
+    den = prog.cls("aioswitcher.schedule:Days").enum
+    assert den is not None
+    seen = {}
+    for k, val in inner[1]:
+        if not (isinstance(k, tuple) and k[0] == "enum"):
+            return False
+        txt = None
+        if T.is_c(val) and isinstance(val[1], str):
+            txt = val[1]
+        elif T.is_seq(val) and all(a[0] == "L" for a in val[2]):
+            txt = "".join(a[1] for a in val[2])
+        if txt is None:
+            return False
+        seen[k[1].member] = txt
+    return set(seen) == set(den.members) and all(seen[m] == "{:02x}".format(den.attr(m, "bit_rep")) for m in den.members)
+
+
 def run(prog: Program, rep: Report, tier: str) -> None:
     rep.rule("R12.1", "Days table: 7 members, weekday 0..6 (Monday first), hex_rep == bit_rep == 2**(weekday+1), all distinct, bit 0 unused", 7, structural=True)
     rep.rule("R12.2", "encoder normal form: empty -> ValueError; single day -> '{:02x}' of its bit; set, or sequence guarded by len == len(set) -> '{:02x}' of the sum of bit_rep; every other path raises ValueError", 6)
@@ -66,6 +91,8 @@ def run(prog: Program, rep: Report, tier: str) -> None:
         if fname == "single day":
             want = T.seq("s", (("fmt", "02x", ("eattr", arg, "bit_rep", alts)),))
             good = len(rets) == 1 and rets[0].value == want and not raises
+            if not good and len(rets) == 1 and not raises:
+                good = table_equals_formula(prog, rets[0].value, arg)
             rep.check(good, "R12.2", "single day", wheree, f"a single day encodes to {[T.show(o.value)[:120] for o in rets]} ({len(raises)} raising paths); expected '{{:02x}}'.format(day.bit_rep)", key="R12.2|single")
             continue
         want = T.seq("s", (("fmt", "02x", ("app", "int", ("app", "sum", ("map", ("eattr", e, "bit_rep", alts), arg)))),))
